@@ -92,7 +92,7 @@ def aliases(name):
 
 class Call:
     __slots__ = ("body", "bb", "callee", "args", "dest", "target", "unwind", "ret_ty", "line",
-                 "targets", "names", "expansion", "inl", "copy_of")
+                 "targets", "names", "expansion", "inl", "copy_of", "hof")
 
     def __init__(self, body, bb, t, line, expansion):
         self.body = body
@@ -106,6 +106,13 @@ class Call:
         # spliced private helper (see inline.py): the CFG successor is the copy's entry block, the
         # continuation "after the call" (where dest is written) is the join block
         self.inl = t[7] if len(t) > 7 else None
+        self.hof = None
+        if self.inl and self.inl.get("hof"):
+            # higher-order std call whose closure argument was spliced in (inline.splice_closures): the CFG successor is
+            # the dispatch block, the continuation after the call is the original target
+            self.hof = self.inl
+            self.inl = None
+            self.target = self.hof["after"]
         if self.inl:
             self.target = self.inl["join"]
         self.line = line
@@ -380,8 +387,15 @@ class Facts:
             raw = json.load(fh)
         self.raw = raw
         self.inline_report = None
+        self.closure_report = None
+        self.renamed = {}
         if not os.environ.get("SKV_NO_INLINE"):
-            from .inline import inline_private_helpers
+            from .inline import inline_private_helpers, detect_renames
+            self.renamed = detect_renames(raw)  # new canonical name -> baseline name it is recognised as
+            self._undo_renames(raw)
+            raw["_renamed"] = {v: k for k, v in self.renamed.items()}  # (ids now carry the baseline names)
+            from .inline import splice_closures
+            self.closure_report = splice_closures(raw)
             self.inline_report = inline_private_helpers(raw)
         self.bodies = {}
         for b in raw["bodies"]:
@@ -400,17 +414,48 @@ class Facts:
         # alias index
         self.alias_index = defaultdict(set)
         self.canon = {}
+        self._alias_cache = {}
         for bid in self.bodies:
             c = strip_generics(bid)
             self.canon[bid] = c
-            for a in aliases(bid):
+            for a in self.aliases_of(c):
                 self.alias_index[a].add(bid)
-        self._alias_cache = {}
         self._resolve_calls()
         self._build_callgraph()
         self._reach_cache = {}
         self.n_blocks = sum(len(b.blocks) for b in self.bodies.values())
         self.n_calls = sum(len(b.calls) for b in self.bodies.values())
+
+    def _undo_renames(self, raw):
+        """a baseline function that was only renamed is presented to the rules under the name they know: body ids (and
+        the ids of its closures) are rewritten; calls to the new name resolve to it (see _callee_targets)"""
+        if not self.renamed:
+            return
+        pref = {}
+        for b in raw["bodies"]:
+            c = strip_generics(b["id"])
+            if c in self.renamed and b.get("kind") in ("fn", "method"):
+                old_last = self.renamed[c].rsplit("::", 1)[-1]
+                new_id = b["id"].rsplit("::", 1)[0] + "::" + old_last if "::" in b["id"] else old_last
+                pref[b["id"]] = new_id
+        for b in raw["bodies"]:
+            for k in ("id", "root", "parent"):
+                v = b.get(k)
+                if not v:
+                    continue
+                for o, n in pref.items():
+                    if v == o or v.startswith(o + "::"):
+                        if k == "id":
+                            b["real_id"] = v
+                        b[k] = n + v[len(o):]
+                        break
+            for bl in b["blocks"]:
+                for st in bl["s"]:
+                    if st[0] == "=" and st[2][0] == "agg" and st[2][3] and "def" in st[2][3]:
+                        d = st[2][3]["def"]
+                        for o, n in pref.items():
+                            if d.startswith(o + "::"):
+                                st[2][3]["def"] = n + d[len(o):]
 
     # -- lookup ------------------------------------------------------------------------------
     def aliases_of(self, name):
@@ -483,8 +528,10 @@ class Facts:
             return []
         p = cal["p"]
         if cal.get("r"):
-            return [strip_generics(cal["r"])]
+            r = strip_generics(cal["r"])
+            return [self.renamed.get(r, r)]
         pc = strip_generics(p)
+        pc = self.renamed.get(pc, pc)
         # dyn receivers: every in-crate implementor; generic receivers: only for in-crate traits
         if cal.get("trait") and (cal.get("dyn") or (cal.get("unres") and cal.get("local"))):
             impls = self.trait_impls.get(pc)
@@ -1723,7 +1770,7 @@ def result_err_type(ty):
     return a[1] if len(a) == 2 else None
 
 
-def feasible_reach(body, starts, avoid=()):
+def feasible_reach(body, starts, avoid=(), out_states=None):
     """blocks reachable from `starts` (>= 0 steps), pruning switch edges that contradict a
     variant fact established on the way: after `x = Enum::Variant(..)` (aggregate) a later
     `switch discriminant(x)` follows only that variant's edge, as long as x is not
@@ -1800,10 +1847,26 @@ def feasible_reach(body, starts, avoid=()):
                         known = fd[a0]
                     elif ty.startswith("std::option::Option<"):
                         known = 1 - fd[a0]
+                if any(n.endswith("from_residual") for n in c.names):
+                    # `?` re-wraps the residual: the produced value is always Err(..) / None
+                    if c.ret_ty.startswith("std::result::Result<"):
+                        known = 1
+                    elif c.ret_ty.startswith("std::option::Option<"):
+                        known = 0
                 fd.pop(c.dest[0], None)
                 if known is not None and len(c.dest) == 1:
                     fd[c.dest[0]] = known
         nf = frozenset(fd.items())
+        if out_states is not None:
+            out_states.setdefault(b, []).append(dict(fd))
         for x in succ:
             dq.append((x, nf))
     return out
+
+
+def proven_err_exit(body, states, e):
+    """every explored path that ends in exit block `e` leaves Err(..) in the return place of a Result-returning fn"""
+    if not body.local_ty(0).startswith("std::result::Result<"):
+        return False
+    st = states.get(e)
+    return bool(st) and all(x.get(0) == 1 for x in st)
